@@ -1,6 +1,7 @@
 package c18
 
 import (
+	"bytes"
 	"crypto/sha256"
 	"fmt"
 	"math"
@@ -71,6 +72,30 @@ var findingProbes = []finding{
 		digest := sha256.Sum256([]byte("verif"))
 		if !k.PublicKey().Verify(k.SignHash(digest), digest[:]) {
 			return "NewPrivateKeyFromBytes (WIF, hex, NEP-2) accepts the scalar 0: the key signs, nothing it signs verifies, its public key (0,0) is encoded as 02 00..00, which decodes to another point (the existing test TestBadWIFDecode requires the WIF of the zero key to decode, so the repair that refuses scalars >= N could not include 0)"
+		}
+		return ""
+	}},
+	{kfPubCache, func() string {
+		// keys nobody else uses (scalars 2^200+1 / +2), and the cache entry is put right again afterwards
+		a := new(big.Int).Add(new(big.Int).Lsh(big.NewInt(1), 200), big.NewInt(1))
+		b := new(big.Int).Add(a, big.NewInt(1))
+		enc := func(d *big.Int) []byte {
+			x, y := curveOf(curveR1).ScalarBaseMult(d.FillBytes(make([]byte, 32)))
+			return append([]byte{byte(2 + y.Bit(0))}, x.FillBytes(make([]byte, 32))...)
+		}
+		ea, eb := enc(a), enc(b)
+		ka, err := keys.NewPublicKeyFromBytes(ea, curveOf(curveR1))
+		if err != nil {
+			return ""
+		}
+		if err := ka.DecodeBytes(eb); err != nil {
+			return ""
+		}
+		again, err := keys.NewPublicKeyFromBytes(ea, curveOf(curveR1))
+		poisoned := err == nil && !bytes.Equal(again.Bytes(), ea)
+		_ = ka.DecodeBytes(ea) // restore the shared entry
+		if poisoned {
+			return "after the owner of a key obtained from NewPublicKeyFromBytes(A) decoded key B into it (DecodeBytes), NewPublicKeyFromBytes(A) returns B: the cache entry is the object handed out (the repair breaks the existing test TestNewPublicKeyFromBytes, which requires a cached access to return the same pointer)"
 		}
 		return ""
 	}},
